@@ -84,6 +84,8 @@ class UnusedTranslator:
                 ASTType.ShowTerm,
             ):
                 self._add_usage(stm.body)
+            if stm.ast_type == ASTType.Rule and stm.head.ast_type == ASTType.Literal and stm.head.sign != Sign.NoSign:
+                self._add_usage_stm(stm.head)  # `not p(X) :- body.` constrains p
             if stm.ast_type == ASTType.Rule and stm.head.ast_type in (
                 ASTType.TheoryAtom,
                 ASTType.Disjunction,
